@@ -35,11 +35,11 @@ class Unpack:
                     v = peel(v.kids[0])
                 v = common._outcome_root(v)
                 if v.kind == "call" and v.d["term"].get("resolved_local"):
-                    self.entry = fx.fn(v.d["term"]["resolved"])
+                    self.entry = fx.view(v.d["term"]["resolved"])
         if self.entry is None:
             ctx.missing(rule, "unpacker entry", "no crate-local call whose result is stored in verified_claims")
             return
-        self.fns = [fx.fns[n] for n in sorted(cg.reachable_from(self.g, [self.entry.name])) if not fx.fns[n].is_macro_generated() and n.startswith("verifier::")]
+        self.fns = [fx.view(n) for n in sorted(cg.reachable_from(self.g, [self.entry.name])) if not fx.fns[n].is_macro_generated() and n.startswith("verifier::")]
         self.vreach = cg.reachable_from(self.g, [vmodel.NEW])
         # digest lookups
         self.lookups = []  # (fn, bb, node)
@@ -169,15 +169,29 @@ def resolve_idx(idx, lenset):
 
 
 def walker_of(U):
-    """the full walker W: the crate-local `(&mut self, &Value) -> Result<Value>` function the entry calls; it dispatches on the JSON kind"""
+    """the full walker W: the crate-local `(.., &Value) -> Result<Value>` function of the unpacking family that dispatches on the JSON
+    kind (it switches on its parameter's discriminant); preferably the one the entry calls"""
     fx = U.fx
-    ev = vals(U.entry)
-    for b, t in U.entry.calls():
-        if t.get("resolved_local") and t.get("resolved") in fx.fns:
-            w = fx.fns[t["resolved"]]
-            if w.kind != "closure" and any((w.local_ty(i) or "") == "&serde_json::Value" for i in range(1, w.arg_count + 1)):
-                return w
-    return None
+    cands = []
+    for w in U.fns:
+        if w.kind == "closure":
+            continue
+        ps = [i for i in range(1, w.arg_count + 1) if (w.local_ty(i) or "") == "&serde_json::Value"]
+        if not ps or not (w.local_ty(0) or "").startswith("std::result::Result<serde_json::Value,"):
+            continue
+        # dispatches on the JSON kind of that parameter
+        disp = False
+        for (b, subj) in common.discr_switches(w):
+            sj = peel(subj)
+            if sj.kind == "param" and sj.d["idx"] in ps:
+                disp = True
+        if disp:
+            cands.append(w)
+    called = set(t.get("resolved") for b, t in U.entry.calls())
+    for w in cands:
+        if w.name in called:
+            return w
+    return cands[0] if len(cands) == 1 else None
 
 
 def must_walk(fx, W, v, depth=0, _seen=None):
@@ -207,3 +221,56 @@ def must_walk(fx, W, v, depth=0, _seen=None):
             return True
         return False
     return must(v, pred)
+
+
+SET_TYS = ("std::collections::HashSet<", "std::collections::BTreeSet<", "indexmap::IndexSet<", "&mut std::collections::HashSet<", "&mut std::collections::BTreeSet<")
+
+
+def _seen_field(node):
+    """name of the struct field a seen-set call is made on (receiver peeled), else None"""
+    if not node.kids:
+        return None
+    p0 = peel(node.kids[0])
+    if p0.kind == "field" and p0.d.get("name"):
+        return p0.d["name"]
+    return None
+
+
+def dup_guard(fn, site_bb, key, same_key):
+    """The duplicate-digest discipline at a site that uses `key`, in either of the code base's idioms:
+         (i)  `seen.contains(&key) == false` edge dominates the site and a `seen.push/insert(key)` lies on every path to it;
+         (ii) `seen.insert(key) == true` edge (set types: insert reports whether the value was new) dominates the site.
+    `seen` is any one field (the same in the test and in the recording). Returns (checked, recorded, field)."""
+    from common import bool_switches, guarded
+    fv = vals(fn)
+    tests = {}    # field -> good edges
+    records = {}  # field -> recording blocks
+    for (bb, tt, ft, c) in bool_switches(fn):
+        if c.kind != "call" or len(c.kids) != 2:
+            continue
+        nm = c.d["term"].get("name")
+        F = _seen_field(c)
+        if F is None or not same_key(c.kids[1], key):
+            continue
+        if nm == "contains":
+            tests.setdefault(F, []).append((bb, ft))
+        elif nm == "insert" and (c.d["term"].get("self_ty") or "").startswith(SET_TYS):
+            tests.setdefault(F, []).append((bb, tt))
+    for b2, t2 in fn.calls():
+        if t2.get("name") not in ("push", "insert", "push_back"):
+            continue
+        n2 = fv.call_node(b2)
+        F = _seen_field(n2)
+        if F is None or len(n2.kids) != 2 or not same_key(n2.kids[1], key):
+            continue
+        records.setdefault(F, []).append(b2)
+    best = (False, False, None)
+    for F, good in tests.items():
+        c1 = guarded(fn, site_bb, good)
+        rec = records.get(F, [])
+        c2 = bool(rec) and site_bb not in cfg.reachable(fn, [0], removed_blocks=rec)
+        if c1 and c2:
+            return (True, True, F)
+        if c1 and not best[0]:
+            best = (True, False, F)
+    return best
